@@ -73,3 +73,12 @@ func VChainInfo(i int, chain string) *types.ExternalChainInfo {
 		Pubkey:           []byte("pubkey-" + chain + "-" + string(rune('0'+i))),
 	}
 }
+
+// GraceStart reads the stored grace-period start height of a validator.
+func (e *VEnv) GraceStart(v sdk.ValAddress) (uint64, bool) {
+	bz := e.K.gracePeriodStore(e.Ctx).Get(v)
+	if bz == nil {
+		return 0, false
+	}
+	return sdk.BigEndianToUint64(bz), true
+}
